@@ -122,8 +122,8 @@ PROPS["C09"] = {
     "level_text": "Stateful property test on the virtual clock: reconcile requests arrive at generated instants (sub-second to minutes apart, so the one-second truncation of stored timestamps is exercised); after every active sync the number of pod Creates is compared with min(maxParallelPodCreation, (1+floor(t/interval))*increase) computed in big integers from the state read, update-deletions with maxUnavailable, and two write-issuing syncs of one replica set must be >= reconcileFrequency-1s apart when the first status write succeeded. Function-level: one sync over generated populations with excluded (taint, node selector) and canary-reserved nodes and a percent increase, the percent being resolved against the targeted nodes only (TestC09Creation); sync pairs at generated second fractions and gaps around reconcileFrequency (TestC09Spacing), and the ramp itself at exact instants k*interval-1ns/0/+1ns through a build-tagged shim, compared for equality with the reference formula (TestC09Ramp).",
     "level_note": SM_NOTE + " t is measured from the Active condition's stored (second-truncated) transition time, one extra second of slack is granted.",
     "technique": "stateful property-based testing (rapid) on a virtual clock with a reference ramp formula",
-    "quick": {"jobs": [rapid_job("sm", "^TestC09SM$", 750, shards=4), rapid_job("spacing", "^TestC09Spacing$", 2000), rapid_job("creation", "^TestC09Creation$", 2000), rapid_job("ramp", "^TestC09Ramp$", 30000, requires="verif_rolling")]},
-    "thorough": {"jobs": [rapid_job("sm", "^TestC09SM$", 4000, shards=14, timeout="50m"), rapid_job("spacing", "^TestC09Spacing$", 20000, shards=2), rapid_job("creation", "^TestC09Creation$", 30000, shards=2), rapid_job("ramp", "^TestC09Ramp$", 500000, requires="verif_rolling")]},
+    "quick": {"jobs": [rapid_job("sm", "^TestC09SM$", 750, shards=4), rapid_job("spacing", "^TestC09Spacing$", 2000), rapid_job("creation", "^TestC09Creation$", 2000), rapid_job("ramp", "^TestC09Ramp$", 30000, requires="verif_rolling"), rapid_job("role-change", "^TestC09RoleChange$", 1)]},
+    "thorough": {"jobs": [rapid_job("sm", "^TestC09SM$", 4000, shards=14, timeout="50m"), rapid_job("spacing", "^TestC09Spacing$", 20000, shards=2), rapid_job("creation", "^TestC09Creation$", 30000, shards=2), rapid_job("ramp", "^TestC09Ramp$", 500000, requires="verif_rolling"), rapid_job("role-change", "^TestC09RoleChange$", 1)]},
 }
 
 PROPS["C12"] = {
@@ -250,3 +250,8 @@ NOT_APPLICABLE = {}
 for _p in ("C03", "C05", "C06", "C10", "C12", "C15", "C16", "C18", "C20"):
     for _t in ("quick", "thorough"):
         PROPS[_p][_t]["jobs"].append(rapid_job("regress", "^TestRegress%s$" % _p, 1))
+
+# a test process that dies of a panic whose first frame is repository code (a worker goroutine nobody can recover
+# from) is a finding of whichever check was running, not an inconclusive run
+for _p in PROPS:
+    PROPS[_p]["log_violations"] = True
